@@ -1,9 +1,10 @@
 import NasVerif.Driver.CodecOps
+import NasVerif.Driver.CounterOps
 open NasVerif NasVerif.Driver
 
 def step (line : String) : String :=
   let toks := (line.trimAscii.toString.splitOn " ").filter (· ≠ "")
-  match codecOp toks with
+  match (codecOp toks <|> counterOp toks) with
   | some r => r
   | none => "bad-op"
 
